@@ -61,7 +61,7 @@ def drive(jobs, fn, procs=16):
 
 
 def plan(tier, rng):
-    n = 2400 if tier == 'quick' else 26000
+    n = 2400 if tier == 'quick' else 22000
     maxw, maxh = (7, 7) if tier == 'quick' else (10, 10)
     return [(rng.getrandbits(48), KINDS[i % len(KINDS)], rng.randint(1, 3 if tier == 'quick' else 5), maxw, maxh) for i in range(n)]
 
